@@ -603,13 +603,19 @@ func c10L1(c *core.Ctx) {
 	}
 	cmds := append([]c10Cmd{}, c10Cmds...)
 	cmds = append(cmds, c10Cmd{[]string{"stats"}, 0, 1, ""})
-	for _, v := range variants {
-		for _, cmd := range cmds {
+	pr := c.Rng("periods", 0)
+	for vi, v := range variants {
+		for ci, cmd := range cmds {
 			uses := (strings.Contains(v.what, "log") && cmd.log >= 0) || (strings.Contains(v.what, "book") && cmd.book >= 0)
 			if !uses {
 				continue
 			}
-			args := append([]string{"--no-color", "-d", v.d, "-l", v.l, "--today", "2021/02/01"}, cmd.args...)
+			args := []string{"--no-color", "-d", v.d, "-l", v.l, "--today", "2021/02/01"}
+			if (vi+ci)%2 == 1 && cmd.args[0] != "summary" {
+				// a period that keeps no day, every day or is inverted: an unreadable file is an error all the same
+				args = append(args, randomPeriod(pr, func(y, m, d int) string { return fmt.Sprintf("%04d/%02d/%02d", y, m, d) })...)
+			}
+			args = append(args, cmd.args...)
 			if cmd.lintFile != "" {
 				f := v.d
 				if cmd.lintFile == "log.yaml" {
